@@ -431,7 +431,8 @@ func init() {
 	// ------------------------------------------------------------------ C02
 	register("C02", func(c *engine.Ctx) {
 		c.Rule = "random structured schemas (tree fragment, plus formats) with schema-directed VALID documents (boundary values of every constraint, optional properties present or absent, null where allowed, nested objects and arrays), a third of the programs also generated with --min-sized-ints and bounds near the integer type limits; every document the reference calls valid must be accepted and every non-empty declared value must re-appear unchanged, at the same place, in json.Marshal of the decoded value. Near-duplicates: pairs of schema nodes whose Go type names collide (sibling properties, definitions, definition vs property, array items) and whose schemas differ in exactly one keyword (24 perturbations: format, type, each bound, required, enum members, items, default, nullable, annotation only, identical), both orders, documents valid for the one and for the other at both positions. The broad random stream (all features, mutated documents) additionally ties model and implementation. Distinct = distinct (stream, verdicts, document shape)."
-		c.Proofs([]string{"GJS.Props.C02", "GJS.Props.Whole", "GJS.Props.Exact", "GJS.Proofs.SpecMono", "GJS.Proofs.Mono", "GJS.Proofs.Stable"}, []string{
+		c.Proofs([]string{"GJS.Props.C02", "GJS.Props.Whole", "GJS.Props.Exact", "GJS.Proofs.SpecMono", "GJS.Proofs.Mono", "GJS.Proofs.Stable", "GJS.Props.FlatGen", "GJS.Props.FlatExact"}, []string{
+			"GJS.Props.Flat.run_flat", "GJS.Props.Flat.flat_end_to_end", "GJS.Props.Flat.flat_end_to_end_yaml", "GJS.Props.Flat.flat_end_to_end_checked", "GJS.Props.Flat.flatPlainB_sound", "GJS.Props.Flat.certAll_root", "GJS.Props.Flat.certCov_root", "GJS.Props.Flat.fields_flat", "GJS.Props.Flat.loop_flat", "GJS.Props.Flat.declared_flat",
 			"GJS.Props.C02.certShape_accepts", "GJS.Props.C02.certified_exact_on_shape", "GJS.Props.C02.certFull_accepts", "GJS.Props.C02.certAll_accepts", "GJS.Props.C02.certSound", "GJS.Props.C02.certified_exact", "GJS.Spec.valid_mono", "GJS.Props.C02.valid_split", "GJS.Props.C02.num_check_iff", "GJS.Props.C02.str_check_iff", "GJS.Props.C02.arr_check_eq", "GJS.Props.C02.str_decode_passes", "GJS.Props.C02.arr_decode_passes", "GJS.Props.C02.decodeStruct_field", "GJS.Props.C02.num_decode_passes", "GJS.Props.C02.acc_map_iff",
 			"GJS.Proofs.decode_err_mono", "GJS.Proofs.decode_stable",
 			"GJS.Props.C02.prim_roundtrip", "GJS.Props.C02.validators_only_reject_on_constraints", "GJS.Props.C02.unmarshal_accept_stable",
@@ -509,6 +510,76 @@ func init() {
 				docs = append(docs, g.Sample(root, 0))
 			}
 			pcs = append(pcs, baseCase("c02-valid", root, docs, "constraint-free"))
+		}
+		// FLAT objects (scalar members, a required list, nothing else): the fragment of the generator-level theorem
+		// `flat_end_to_end` — for these the model generator's output is known in closed form for EVERY schema; the
+		// evidence counts how many programs the driver places inside it (`flat`), and the correspondence ties the closed
+		// form to what the real generator emits and what the emitted code does
+		flatNames := []string{"name", "age", "ok", "score", "first-name", "x_y", "a.b", "2nd", "URL", "id", "e-mail", "zip code", "HTTPPort", "k9", "Ω"}
+		for i := 0; i < c.N(60, 600); i++ {
+			n := 1 + c.R.Intn(9)
+			perm := make([]int, len(flatNames)-1) // the non-ASCII name only in a tenth of the programs (outside the fragment)
+			for k := range perm {
+				perm[k] = k
+			}
+			for k := len(perm) - 1; k > 0; k-- {
+				j := c.R.Intn(k + 1)
+				perm[k], perm[j] = perm[j], perm[k]
+			}
+			props, req := sgen.M{}, []any{}
+			var names []string
+			for k := 0; k < n; k++ {
+				nm := flatNames[perm[k]]
+				if k == 0 && i%10 == 9 {
+					nm = flatNames[len(flatNames)-1]
+				}
+				names = append(names, nm)
+				props[nm] = sgen.M{"type": []string{"string", "integer", "number", "boolean"}[c.R.Intn(4)]}
+				if c.R.Intn(2) == 0 {
+					req = append(req, nm)
+				}
+			}
+			schema := sgen.M{"type": "object", "properties": props}
+			if len(req) > 0 || c.R.Intn(2) == 0 {
+				schema["required"] = req
+			}
+			val := func(nm string, wrong bool) any {
+				t := props[nm].(sgen.M)["type"].(string)
+				if wrong {
+					t = map[string]string{"string": "integer", "integer": "string", "number": "boolean", "boolean": "number"}[t]
+				}
+				switch t {
+				case "string":
+					return "v" + nm
+				case "integer":
+					return c.R.Intn(2000) - 1000
+				case "number":
+					return float64(c.R.Intn(4000)-2000) / 8
+				}
+				return c.R.Intn(2) == 0
+			}
+			full := M{}
+			for _, nm := range names {
+				full[nm] = val(nm, false)
+			}
+			docs := []any{full}
+			for _, nm := range names { // each member left out (valid iff optional), each member wrongly typed (invalid)
+				d, w := M{}, M{}
+				for k, v := range full {
+					if k != nm {
+						d[k] = v
+					}
+					w[k] = v
+				}
+				w[nm] = val(nm, true)
+				docs = append(docs, d, w)
+			}
+			onlyReq := M{"unknown-key": 1}
+			for _, r := range req {
+				onlyReq[r.(string)] = full[r.(string)]
+			}
+			docs = append(docs, onlyReq, M{})
+			pcs = append(pcs, baseCase("c02-valid", schema, docs, "flat-object"))
 		}
 		// a member with a valid default AND a constraint its Go zero value violates: the documents that omit it (or give
 		// null) are valid and must be accepted — at the top, nested, and in array items
@@ -640,6 +711,7 @@ func init() {
 		certCount(c, res, "full")
 		certCount(c, res, "all")
 		certCount(c, res, "exact")
+		certCount(c, res, "flat")
 		breaks(c, res, nil, fails > 0)
 		knownProgramFindings(c)
 	})
